@@ -177,6 +177,9 @@ type c11Val struct {
 	data  []byte
 	sizes []int
 	str   bool
+	// what the receiver was handed (kept until the end of the session)
+	got      []byte
+	gotSizes []int
 }
 
 func mix(x uint64) uint64 {
@@ -279,9 +282,11 @@ func (v *c11Val) recv(c *p2p.Conn) (bool, string, error) {
 			return x == string(v.data), fmt.Sprintf("string len got %d want %d", len(x), len(v.data)), err
 		}
 		x, err := c.ReceiveData()
+		v.got = x // kept by the caller: must still be the sent bytes after later receives
 		return bytes.Equal(x, v.data), fmt.Sprintf("data len got %d want %d", len(x), len(v.data)), err
 	case "sizes":
 		x, err := c.ReceiveInputSizes()
+		v.gotSizes = x
 		ok := len(x) == len(v.sizes)
 		if ok {
 			for i := range x {
@@ -568,6 +573,21 @@ func c11Direction(S, R *p2p.Conn, pipe *bytePipe, ops []c11Op, h uint64, res *Re
 				fail("value:"+v.kind, "receive #%d (%s,%d): %s", i, v.kind, v.n, what)
 			}
 			log.add(connEv{Ev: "recvret", A: R.ReadStart, B: R.ReadEnd, C: int(R.Stats.Recvd.Load()), OK: okI})
+		}
+		// values handed to the caller earlier are still the values sent
+		for i, v := range vals {
+			if v.got != nil && !bytes.Equal(v.got, v.data) {
+				fail("value:data:changed-by-later-receive", "the data returned by receive #%d (%d bytes) changed when later values were received", i, v.n)
+				break
+			}
+			if v.gotSizes != nil {
+				for k := range v.gotSizes {
+					if k < len(v.sizes) && v.gotSizes[k] != v.sizes[k] {
+						fail("value:sizes:changed-by-later-receive", "the size list returned by receive #%d changed when later values were received", i)
+						break
+					}
+				}
+			}
 		}
 	}()
 }
